@@ -448,8 +448,8 @@ def matchIfaceY (D : Decls) (d : Dyn) (ty : TyRef) : Bool :=
   let m0 := methodSigsY D d.t d.ptr
   (ifaceNamesY D ty).all (fun k => m0.any (fun p => p.1 == k.1 && p.2 == k.2))
 
-/-- type-switch clause test of `_case` -/
-def matchCaseY (D : Decls) (typedSrc bindForm : Bool) (dyn : Option Dyn) (ty : TyRef) : Bool :=
+/-- type-switch clause test of `_case` up to 9f81224 (three matchers, one per clause form) -/
+def matchCaseLegacyY (D : Decls) (typedSrc bindForm : Bool) (dyn : Option Dyn) (ty : TyRef) : Bool :=
   let concrete (t : Nat) (isPtr : Bool) : Bool :=
     match dyn with
     | none => false
@@ -477,6 +477,32 @@ def matchCaseY (D : Decls) (typedSrc bindForm : Bool) (dyn : Option Dyn) (ty : T
       | some d => d.wrapped && !ms.isEmpty
       | none => false)
   | .empty => false
+
+/-- `matchCase(f, v, typ)` (since 9f81224), whatever the clause form and the operand's static type:
+    the operand is unwrapped to its dynamic value; `nil` matches the nil interface only; a struct or
+    pointer clause type must be identical to the dynamic type (for a value stored raw in `interface{}`
+    the reflect types are compared: the same under the assumption that distinct struct types are
+    structurally distinct); an interface clause type needs its method names in `methods()` of the
+    dynamic type and no pointer-receiver method that a value lacks (`needsPtrFor`) — for a value
+    stored raw in `interface{}` (no type node: a pointer, or a struct whose type has no method of its
+    own) the reflect type has no methods, so only an interface without methods matches (F06) -/
+def matchCaseNewY (F : Facts) (D : Decls) (dyn : Option Dyn) (ty : TyRef) : Bool :=
+  let ifaceMatch (ims : List (String × Nat)) : Bool :=
+    match dyn with
+    | none => false
+    | some d => ims.isEmpty || (d.wrapped && containsY F (methodsY D d.t) ims && !needsPtrY F D d.t d.ptr ims)
+  match ty with
+  | .nil => dyn.isNone
+  | .ptr t => (match dyn with | some d => d.t == t && d.ptr | none => false)
+  | .named t =>
+    if isIfaceT D t then ifaceMatch (ifaceNamesY D ty)
+    else (match dyn with | some d => d.t == t && !d.ptr | none => false)
+  | .anon _ => ifaceMatch (ifaceNamesY D ty)
+  | .empty => dyn.isSome
+
+/-- type-switch clause test of `_case` -/
+def matchCaseY (F : Facts) (D : Decls) (typedSrc bindForm : Bool) (dyn : Option Dyn) (ty : TyRef) : Bool :=
+  if F.caseUsesMatchCase then matchCaseNewY F D dyn ty else matchCaseLegacyY D typedSrc bindForm dyn ty
 
 def dynT (d : Option Dyn) : Option DynT := d.map (fun x => ⟨x.t, x.ptr⟩)
 
@@ -641,7 +667,7 @@ def execStmt (w : Who) (F : Facts) (D : Decls) (se : SEnv) (s : St) : Stmt → S
      | some (.ifc d) =>
        let r := match w with
          | .go => typeSwitchG D (dynT d) cs
-         | .yaegi => typeSwitchY F.defaultSwap F.clauseChain (matchCaseY D typed bindForm d) cs
+         | .yaegi => typeSwitchY F.defaultSwap F.clauseChain (matchCaseY F D typed bindForm d) cs
        (match r with
         | some k => emit s ["case", toString k]
         | none => s)
